@@ -235,6 +235,9 @@ def derive_some_edges(body, edges, inner_edges_fn=None):
                                 pass
                             else:
                                 ok = False
+                    elif rv["k"] == "call" and any(body.edge_guards(ge, site.bb) for ge in edges):
+                        # whatever this call yields (`cond.then(|| ..)`, a lookup, ..) is computed under F
+                        n_some += 1
                     else:
                         ok = False
             # stores made by closures that capture the variable
